@@ -144,6 +144,8 @@ class Built:
           if fault == 'ctor_raise' or (fault == 'ctor_raise_once' and
                                        type(self)._vf_ctor_calls[0] == 1):
             raise RuntimeError('plug %d ctor boom' % idx)
+          if fault == 'ctor_exit':
+            raise SystemExit('plug %d: fixture not connected' % idx)
 
         def tearDown(self):
           t0 = time.monotonic()
@@ -316,6 +318,10 @@ class Built:
           _ri = _ri[min(k, len(_ri)) - 1]
         if _ri == 'raise':
           raise RuntimeError('run_if boom')
+        if _ri == 'exit':
+          # a BaseException that is not an Exception, on the executor thread
+          log.add('exit_raised', pid)
+          raise SystemExit('run_if exit')
         return bool(_ri)
       opts['run_if'] = run_if
     r = beh.get('r', 'C')
@@ -431,6 +437,9 @@ def run_real(prog, cfg, callbacks=None, keep=False):
     b.release.set()
     threading.excepthook = old_hook
     prune_handlers()
+  for e in b.log.events:
+    if e[2] == 'exit_raised':     # threading.excepthook is not told about SystemExit
+      crashes.append(('SystemExit', 'run_if', 'TestExecutorThread'))
   obs = {'crash': crashes, 'exc': exc, 'ret': ret,
          'calls': [e[3] for e in b.log.events if e[2] == 'start'],
          'ncallbacks': len(recs)}
@@ -629,6 +638,9 @@ class Model:
       ri = beh.get('run_if')
       if isinstance(ri, list):
         ri = ri[min(count, len(ri)) - 1]
+      if ri == 'exit':
+        self.crashed = True      # SystemExit on the executor thread
+        return 'TERM'
       if ri == 'raise':
         final, exc = 'EXC', 'RuntimeError'                   # (r10)
       elif ri is False:
@@ -964,7 +976,7 @@ def gen_phase(rng, ids, rich=True):
   if rich:
     if rng.random() < .1:
       beh['run_if'] = rng.choice([False, False, True, 'raise', [True, False],
-                                  [True, False, True], [False, True]])
+                                  [True, False, True], [False, True], 'exit'])
     if rng.random() < .2:
       beh['opts'] = rng.choice([
           {'force_repeat': True}, {'repeat_on_measurement_fail': True},
